@@ -248,11 +248,11 @@ OBLIGATIONS = [
                           for b in (True, False) for i in range(2) for d in range(2)]
                 + ["depth == 4 and not fast and host_active == %s and dsel == %d" % (b, d) for b in (True, False) for d in range(2)]
                 + ["depth == 3 and fast and host_active == %s and dsel == %d" % (b, d) for b in (True, False) for d in range(2)],
-                "thorough": ["depth == 5 and fast == %s and host_active == %s and refuse_h == %d and refuse_e == %d and dsel == %d"
-                             % (f, b, i, j, d) for f in (True, False) for b in (True, False) for i in range(2) for j in range(2)
-                             for d in range(2)]
-                + ["depth == 6 and not fast and host_active == %s and refuse_h == 0 and refuse_e == 0 and dsel == 0 and c0 == %d and c1 == %d"
-                   % (b, c, c1) for b in (True, False) for c in range(2) for c1 in range(3)]},
+                "thorough": ["depth == 5 and not fast and host_active == %s and refuse_h == %d and refuse_e == %d and dsel == %d"
+                             % (b, i, j, d) for b in (True, False) for i in range(2) for j in range(2) for d in range(2)]
+                + ["depth == 4 and fast == %s and host_active == %s and dsel == %d" % (f, b, d)
+                   for f in (True, False) for b in (True, False) for d in range(2)]
+                + ["depth == 3 and host_active == %s" % b for b in (True, False)]},
          functions=["GemHandler.enable/disable/_on_message_received/_on_communicating/_on_disconnected/_on_state_wait_cra/"
                     "waitfor_communicating", "CommunicationStateMachine (all transitions, both timers)",
                     "SecsHandler._handle_stream_function, built-in S1F1/S1F13 handlers of both roles", "S1F13/S1F14 codecs both ways",
@@ -264,7 +264,7 @@ OBLIGATIONS = [
                 "(FIFO delivery, timers in due order on a virtual clock) must reach COMMUNICATING on both sides within 40 events, no "
                 "user callback ran outside COMMUNICATING, S1F1/S1F2 works in both directions and one subscribed collection event "
                 "reaches the host exactly once",
-         outside="schedules with more than `depth` adversarial events (quick: 3 with the link coming up inside enable(), 4, 5 with equal refusal flags; thorough 5 / 6 without refusal), > 2 early timer expiries, > 1 link loss / "
+         outside="schedules with more than `depth` adversarial events (quick: 3 with the link coming up inside enable(), 4, 5 with equal refusal flags; thorough: 4 with it, 5 with every refusal combination), > 2 early timer expiries, > 1 link loss / "
                  "disable; the HSMS Select exchange, T5-T8 and TCP segmentation below the GEM layer (C04/C05/C09); real threads: each "
                  "event runs to completion (the handlers' own concurrency is C06/C18's subject)"),
 ]
